@@ -29,7 +29,7 @@ def corpus():
 
 
 def generate(rng, tier):
-    n = 250 if tier == "quick" else 30000
+    n = 450 if tier == "quick" else 30000
     for _ in range(n):
         nd = rng.choice([2, 2, 3, 3, 4, 4])
         names = ["RA", "DEC"] + {2: [], 3: [rng.choice(["WAVE", "TIME"])], 4: ["WAVE", "TIME"]}[nd]
